@@ -9,23 +9,22 @@
   Accounts that are not active validators cannot open or vote on allegations."
 
   Theorems are over the model `OLP.Alleg` (a port of the Go code as written, tied to it by the
-  `alleg` correspondence engine).  Where the code does not satisfy a clause the full statement is
-  kept in a comment, a `_partial` theorem carries exactly the hypothesis the code forces, and a
-  concrete counterexample is proved; the harness replays each of them on the implementation
-  (harness/apph/alleg_script.go, `allegWitnesses`).
+  `alleg` correspondence engine).  Seven deviations this check found in the code were repaired
+  (7eb2406, 73dca0f, 6709f41, 1d3139c, 8e5280a, df2e1ab, 92417eb); the clauses they concerned are
+  proved at full strength now and their former counterexamples are kept as regression examples
+  (`decide`), the harness replays the same scenarios on the implementation
+  (harness/apph/alleg_script.go, corpus/C19).
 
-  Float assumption (`Exact F`): the `float64` / `big.Float` expressions of the tally agree with
-  exact rationals on the arguments they are evaluated at.  The harness evaluates the Go
-  expressions on every tally and reports where that fails: it does fail for
-  `no/required > 1 - pct/dec` at exact ties (e.g. 1/5 > 1 - 80/100), see
-  `innocent_without_crossing_if_float_inexact`.
+  Float assumption (`Exact F`): only the penalty is still computed in `big.Float`; it is a
+  parameter of the model and `penalty_exact_and_bounty_le_penalty` assumes it equals the exact
+  rounding.  The thresholds are integer arithmetic in the code and in the model.
 -/
 import OLP.Alleg.Lemmas
 
 namespace OLP.Props.C19
 open OLP OLP.Alleg
 
-/-! ## sample world for the non-vacuity examples and the counterexamples -/
+/-! ## sample world for the non-vacuity and regression examples -/
 
 /-- options: vote share 50 %, allegation share 50 %, penalty 30 %, bounty 50 %, release after 1 day,
     missed-votes window 3 blocks / 2 votes -/
@@ -40,28 +39,29 @@ def sampleState (votes : List Vote) : State :=
     vstat := [("a0", ⟨true, 2⟩), ("a1", ⟨true, 2⟩), ("a2", ⟨true, 2⟩), ("a3", ⟨true, 2⟩)],
     total := [("a3", 15)], vd := [(("a3", "s3"), 15)], de := [("s3", 15)], db := [("s3", 4)] }
 
-def env4 (h t : Int) : Env := ⟨h, t, 4, o50, prev4⟩
+def env4 (h t : Int) : Env := ⟨h, t, 4, o50, prev4, prev4⟩
 
-/-! ## 1. verdict iff threshold -/
+/-! ## 1. verdict iff threshold, over the votes of currently active validators -/
 
-/-- the decision of the tally loop in exact rationals: with `required = ⌈active·vote% ⌉`,
-    guilty ⇔ yes/required > alleg%, innocent ⇔ ¬guilty ∧ no/required > 1 − alleg%, else no verdict -/
-theorem verdict_iff_threshold (F : FloatOps) (hF : Exact F) (env : Env) (ar : Request) :
+/-- the decision of the tally loop: with `required = (active·vote% + dec − 1) / dec` and the yes / no
+    counts taken over the votes of addresses whose status record is active at the tally,
+    guilty ⇔ yes/required > alleg%, innocent ⇔ ¬guilty ∧ no/required > 1 − alleg%, else no verdict
+    (integer arithmetic, no float assumption) -/
+theorem verdict_iff_threshold (env : Env) (vs : List (Addr × VStat)) (ar : Request) :
     let o := env.opts
-    let required := (env.active * o.votePct + o.voteDec - 1) / o.voteDec
-    let yes := countChoice 1 ar.votes
-    let no := countChoice 2 ar.votes
-    (verdictOf F env ar = .guilty ↔ yes * o.allegDec > o.allegPct * required) ∧
-    (verdictOf F env ar = .innocent ↔
+    let required := requiredVotes env.active o
+    let yes := countChoice 1 (activeVotes vs ar)
+    let no := countChoice 2 (activeVotes vs ar)
+    (verdictOf env vs ar = .guilty ↔ yes * o.allegDec > o.allegPct * required) ∧
+    (verdictOf env vs ar = .innocent ↔
         ¬ (yes * o.allegDec > o.allegPct * required) ∧ no * o.allegDec > (o.allegDec - o.allegPct) * required) ∧
-    (verdictOf F env ar = .none ↔
+    (verdictOf env vs ar = .none ↔
         ¬ (yes * o.allegDec > o.allegPct * required) ∧ ¬ (no * o.allegDec > (o.allegDec - o.allegPct) * required)) := by
   simp only
-  rw [verdictOf_of_exact hF]
-  have hg := verdictOf_exact_guilty env ar
-  have hi := verdictOf_exact_innocent env ar
+  have hg := verdictOf_guilty env vs ar
+  have hi := verdictOf_innocent env vs ar
   refine ⟨hg, hi, ?_⟩
-  cases hv : verdictOf exactOps env ar with
+  cases hv : verdictOf env vs ar with
   | guilty => simp [hg.mp hv]
   | innocent => simp [(hi.mp hv).2]
   | none =>
@@ -69,103 +69,135 @@ theorem verdict_iff_threshold (F : FloatOps) (hF : Exact F) (env : Env) (ar : Re
     constructor
     · intro h; rw [hg.mpr h] at hv; cases hv
     · intro h
-      by_cases hgu : countChoice 1 ar.votes * env.opts.allegDec >
-          env.opts.allegPct * ((env.active * env.opts.votePct + env.opts.voteDec - 1) / env.opts.voteDec)
+      by_cases hgu : countChoice 1 (activeVotes vs ar) * env.opts.allegDec >
+          env.opts.allegPct * requiredVotes env.active env.opts
       · rw [hg.mpr hgu] at hv; cases hv
       · rw [hi.mpr ⟨hgu, h⟩] at hv; cases hv
 
 /-- `required` is the ceiling of `active·votePct / voteDec` -/
-theorem required_is_ceiling (active : Int) (o : Opts) (hd : 0 < o.voteDec) :
-    let r := exactOps.required active o
+theorem required_is_ceiling (active : Int) (o : Opts) (hd : 0 < o.voteDec) (hp : 0 ≤ o.votePct) (ha : 0 < active) :
+    let r := requiredVotes active o
     o.voteDec * (r - 1) < active * o.votePct ∧ active * o.votePct ≤ o.voteDec * r :=
-  required_is_ceil active o hd
+  required_is_ceil active o hd hp ha
+
+/-- the verdict depends on the votes of CURRENTLY active validators only (6709f41): votes of
+    addresses whose status record is not active at the tally can be added or removed at will -/
+theorem votes_are_of_currently_active (env : Env) (vs : List (Addr × VStat)) (ar ar' : Request)
+    (h : activeVotes vs ar = activeVotes vs ar') : verdictOf env vs ar = verdictOf env vs ar' :=
+  verdictOf_congr_votes env vs ar ar' h
+
+theorem verdict_from_active_votes_alone (env : Env) (vs : List (Addr × VStat)) (ar : Request) :
+    verdictOf env vs ar = verdictOf env vs { ar with votes := activeVotes vs ar } :=
+  verdictOf_congr_votes env vs _ _ (activeVotes_idem vs ar).symm
+
+/-- regression (was `departed_voter_still_counts`): `a0` voted yes and then left the active set
+    (3 active, required 2); with one more yes vote only one currently active validator has voted
+    yes, which is not more than 50 % of 2 — no verdict; with `a0` still active it is guilty -/
+example :
+    let ar : Request := ⟨"a0", "a3", 5, 1, [⟨"a0", 1⟩, ⟨"a1", 1⟩]⟩
+    let env : Env := ⟨6, 600, 3, o50, prev4, prev4⟩
+    verdictOf env [("a0", ⟨false, 5⟩), ("a1", ⟨true, 2⟩), ("a2", ⟨true, 2⟩), ("a3", ⟨true, 2⟩)] ar = .none ∧
+    verdictOf env (sampleState []).vstat ar = .guilty := by decide
+
+/-- regression (was `innocent_without_crossing_if_float_inexact`): share 80/100, five required:
+    one no vote is exactly 20 %, not more — no verdict; two no votes acquit -/
+example :
+    let o : Opts := { o50 with allegPct := 80, votePct := 100 }
+    let env : Env := ⟨6, 600, 5, o, prev4, prev4⟩
+    let vs : List (Addr × VStat) := [("a0", ⟨true, 2⟩), ("a1", ⟨true, 2⟩), ("a2", ⟨true, 2⟩)]
+    requiredVotes 5 o = 5 ∧
+    verdictOf env vs ⟨"a0", "a3", 5, 1, [⟨"a1", 2⟩]⟩ = .none ∧
+    verdictOf env vs ⟨"a0", "a3", 5, 1, [⟨"a1", 2⟩, ⟨"a2", 2⟩]⟩ = .innocent := by decide
 
 /-- at the block end the verdict is what happens to the request: a guilty verdict writes the
     byzantine-fault record of this block for the accused; an innocent verdict (or a guilty one
-    against an address with a validator record) removes the request; no verdict leaves it as it was -/
+    against an address with a validator record) removes the request; no verdict leaves it as it was.
+    The status records are those the election pass of the same block end left. -/
 theorem tally_follows_verdict (F : FloatOps) (env : Env) (st : State) (id : ReqId) (ar : Request)
-    (hact : env.active ≠ 0) (hid : id ∈ st.tracker) (har : alookup id (cleanTracker st).reqs = some ar) :
-    (verdictOf F env ar = .guilty → alookup ar.accused (tally F env st).susp = some (byzRec env)) ∧
-    (verdictOf F env ar = .none → alookup id (tally F env st).reqs = some ar) ∧
-    (verdictOf F env ar = .innocent ∨ (verdictOf F env ar = .guilty ∧ (alookup ar.accused env.prev).isSome) →
+    (hrun : TallyRuns env) (hid : id ∈ st.tracker) (har : alookup id (cleanTracker st).reqs = some ar) :
+    (verdictOf env st.vstat ar = .guilty → alookup ar.accused (tally F env st).susp = some (byzRec env)) ∧
+    (verdictOf env st.vstat ar = .none → alookup id (tally F env st).reqs = some ar) ∧
+    (verdictOf env st.vstat ar = .innocent ∨ (verdictOf env st.vstat ar = .guilty ∧ (alookup ar.accused env.prev).isSome) →
         alookup id (tally F env st).reqs = none) := by
-  obtain ⟨hs, hr⟩ := tallyWith_eq F env st.tracker st.tracker st hact
+  obtain ⟨hs, hr, _⟩ := tallyWith_eq F env st.tracker st.tracker st hrun
   have hid' : id ∈ sortIds st.tracker := mem_sortIds.mpr hid
+  have hvs : (cleanTrackerWith st.tracker st, ([] : List ReqId)).1.vstat = st.vstat :=
+    (cleanTrackerWith_fields st.tracker st).2.1
   refine ⟨fun hv => ?_, fun hv => ?_, fun hv => ?_⟩
-  · unfold tally; rw [hs]; exact tallyFold_guilty F env _ _ id ar hid' har hv
-  · unfold tally; rw [hr]; exact tallyFold_none_keeps F env _ _ id ar har hv
-  · unfold tally; rw [hr]; exact tallyFold_decided_erases F env _ _ id ar hid' har hv
+  · unfold tally; rw [hs]; exact tallyFold_guilty F env st.vstat _ _ id ar hvs hid' har hv
+  · unfold tally; rw [hr]; exact tallyFold_none_keeps F env st.vstat _ _ id ar hvs har hv
+  · unfold tally; rw [hr]; exact tallyFold_decided_erases F env st.vstat _ _ id ar hvs hid' har hv
 
 /-- … and ONLY then: the tally changes the suspicious-validator record of an address only through
     a guilty verdict on a tracked request against it -/
 theorem guilty_only_by_verdict (F : FloatOps) (env : Env) (st : State) (a : Addr)
     (h : alookup a (tally F env st).susp ≠ alookup a st.susp) :
-    env.active ≠ 0 ∧ ∃ id ar, id ∈ st.tracker ∧ alookup id (cleanTracker st).reqs = some ar ∧ ar.accused = a ∧
-      verdictOf F env ar = .guilty := by
-  by_cases hact : env.active = 0
-  · unfold tally at h; rw [tallyWith_inactive F env _ _ st hact] at h; exact absurd rfl h
-  · refine ⟨hact, ?_⟩
+    TallyRuns env ∧ ∃ id ar, id ∈ st.tracker ∧ alookup id (cleanTracker st).reqs = some ar ∧ ar.accused = a ∧
+      verdictOf env st.vstat ar = .guilty := by
+  by_cases hrun : TallyRuns env
+  · refine ⟨hrun, ?_⟩
     unfold tally at h
-    rw [(tallyWith_eq F env st.tracker st.tracker st hact).1] at h
+    rw [(tallyWith_eq F env st.tracker st.tracker st hrun).1] at h
     have h' : alookup a ((sortIds st.tracker).foldl (tallyOne F env) (cleanTrackerWith st.tracker st, [])).1.susp ≠
         alookup a (cleanTrackerWith st.tracker st, ([] : List ReqId)).1.susp := by
       simp only [(cleanTrackerWith_fields st.tracker st).1]; exact h
-    obtain ⟨id, ar, hid, har, hacc, hv⟩ := tallyFold_susp_change F env _ _ a h'
+    obtain ⟨id, ar, hid, har, hacc, hv⟩ := tallyFold_susp_change F env st.vstat _ _ a
+      (cleanTrackerWith_fields st.tracker st).2.1 h'
     exact ⟨id, ar, mem_sortIds.mp hid, har, hacc, hv⟩
+  · unfold tally at h; rw [tallyWith_skipped F env _ _ st hrun] at h; exact absurd rfl h
 
-/-- without active validators nothing is decided -/
-theorem no_active_no_verdict (F : FloatOps) (env : Env) (st : State) (h : env.active = 0) : tally F env st = st :=
-  tallyWith_inactive F env _ _ st h
+/-- without active validators (or with an option group without decimals) nothing is decided -/
+theorem no_active_no_verdict (F : FloatOps) (env : Env) (st : State) (h : ¬ TallyRuns env) : tally F env st = st :=
+  tallyWith_skipped F env _ _ st h
+
+/-- the tracker keys are a set in every reachable state (it is a Go map) -/
+theorem tracker_is_a_set (ops : List Op) : (run State.empty ops).tracker.Nodup :=
+  run_trackerNodup State.empty ops (by simp [State.empty])
 
 /-
   FULL STATEMENT (false of the code): every tracked request keeps its place until its own votes
-  decide it:  `∀ id ∈ st.tracker, alookup id (cleanTracker st).reqs = alookup id st.reqs`.
-  `CleanTracker` builds its id list with `make([]string, len)` followed by `append`, i.e. with `len`
-  leading empty strings: a request stored under the EMPTY id is its own duplicate and is deleted,
-  whatever its votes; the second request against one address (two allegations in one block — the
-  existence check iterates committed keys only) is deleted as well.
+  decide it:  `cleanTracker st = st` for every reachable `st`.
+  The existence check of PerformAllegation iterates the keys of the COMMITTED tree only
+  (`State.IterateRange`), so two allegations against one address in ONE block both succeed;
+  `CleanTracker` then deletes the second (in id order) at the block end, whatever votes it holds.
+  Forced hypothesis: at most one open request per address.  (The other way a request used to
+  vanish — the empty request id — was repaired by 8e5280a.)
 -/
 theorem cleanup_keeps_requests_partial (st : State) (hnd : st.tracker.Nodup)
-    (hempty : alookup "" st.reqs = none)
     (hinj : ∀ i j a b, alookup i st.reqs = some a → alookup j st.reqs = some b → a.accused = b.accused → i = j) :
     cleanTracker st = st :=
-  cleanTrackerWith_noop st.tracker st hnd hempty hinj
+  cleanTrackerWith_noop st.tracker st hnd hinj
 
-/-- counterexample: three yes votes of the four active validators (required 2, share 50 %) against
-    `a3` under the empty request id: no record is written for `a3`, the request is gone -/
-theorem empty_id_request_dropped :
-    let st : State := { sampleState [⟨"a0", 1⟩, ⟨"a1", 1⟩, ⟨"a2", 1⟩] with
-      reqs := [("", ⟨"a0", "a3", 5, 1, [⟨"a0", 1⟩, ⟨"a1", 1⟩, ⟨"a2", 1⟩]⟩)], committed := [""], tracker := [""] }
-    verdictOf exactOps (env4 6 600) ⟨"a0", "a3", 5, 1, [⟨"a0", 1⟩, ⟨"a1", 1⟩, ⟨"a2", 1⟩]⟩ = .guilty ∧
-    alookup "" (tally exactOps (env4 6 600) st).reqs = none ∧
+/-- counterexample for the full statement: two requests against `a3` opened in one block; the
+    second in id order is deleted at the block end although it holds the deciding votes -/
+theorem duplicate_request_dropped :
+    let st : State := { sampleState [] with
+      reqs := [("r1", ⟨"a0", "a3", 5, 1, []⟩), ("r2", ⟨"a1", "a3", 5, 1, [⟨"a0", 1⟩, ⟨"a1", 1⟩, ⟨"a2", 1⟩]⟩)],
+      committed := [], tracker := ["r1", "r2"] }
+    verdictOf (env4 6 600) st.vstat ⟨"a1", "a3", 5, 1, [⟨"a0", 1⟩, ⟨"a1", 1⟩, ⟨"a2", 1⟩]⟩ = .guilty ∧
+    alookup "r2" (tally exactOps (env4 6 600) st).reqs = none ∧
     isFrozen (tally exactOps (env4 6 600) st) "a3" = false := by
   simp only [tally]
   rw [tallyWith_core _ _ _ _ _ (by decide) (by decide)]
   decide
 
-example : -- the hypotheses of `cleanup_keeps_requests_partial` and `tally_follows_verdict` are satisfiable
-    (sampleState [⟨"a0", 1⟩, ⟨"a1", 1⟩]).tracker.Nodup ∧ alookup "" (sampleState [⟨"a0", 1⟩, ⟨"a1", 1⟩]).reqs = none ∧
-    verdictOf exactOps (env4 6 600) ⟨"a0", "a3", 5, 1, [⟨"a0", 1⟩, ⟨"a1", 1⟩]⟩ = .guilty ∧
-    verdictOf exactOps (env4 6 600) ⟨"a0", "a3", 5, 1, [⟨"a0", 1⟩, ⟨"a1", 2⟩]⟩ = .none ∧
-    verdictOf exactOps (env4 6 600) ⟨"a0", "a3", 5, 1, [⟨"a1", 2⟩, ⟨"a2", 2⟩]⟩ = .innocent := by decide
+/-- regression (was `empty_id_request_dropped`): three yes votes of the four active validators
+    under the EMPTY request id convict like under any other id -/
+example :
+    let st : State := { sampleState [] with
+      reqs := [("", ⟨"a0", "a3", 5, 1, [⟨"a0", 1⟩, ⟨"a1", 1⟩, ⟨"a2", 1⟩]⟩)], committed := [""], tracker := [""] }
+    alookup "" (tally exactOps (env4 6 600) st).reqs = none ∧
+    alookup "a3" (tally exactOps (env4 6 600) st).susp = some (byzRec (env4 6 600)) := by
+  simp only [tally]
+  rw [tallyWith_core _ _ _ _ _ (by decide) (by decide)]
+  decide
 
-/-
-  FULL STATEMENT (false of the code, through IEEE arithmetic): the innocent verdict needs
-  `no/required > 1 − pct/dec` in exact rationals.  The code computes `1 - float64(pct)/float64(dec)`;
-  for pct/dec = 80/100 that is 0.19999999999999996, so ONE no vote of five required (exactly 20 %)
-  acquits.  Stated for any `FloatOps` that returns what the Go runtime returns at that point (the
-  harness evaluates the Go expression and replays the case on the implementation).
--/
-theorem innocent_without_crossing_if_float_inexact (F : FloatOps) (env : Env) (ar : Request)
-    (hopts : env.opts.allegPct = 80 ∧ env.opts.allegDec = 100)
-    (hreq : F.required env.active env.opts = 5) (hno : countChoice 2 ar.votes = 1) (hyes : countChoice 1 ar.votes = 0)
-    (hg : F.guiltyGt 0 5 env.opts = false)
-    (hfloat : F.innocentGt 1 5 env.opts = true) :   -- float64: 1/5 > 1 - 80/100
-    verdictOf F env ar = .innocent ∧
-    ¬ (countChoice 2 ar.votes * env.opts.allegDec > (env.opts.allegDec - env.opts.allegPct) * 5) := by
-  constructor
-  · unfold verdictOf; simp [hreq, hno, hyes, hg, hfloat]
-  · rw [hno, hopts.1, hopts.2]; decide
+example : -- the hypotheses of `cleanup_keeps_requests_partial` and `tally_follows_verdict` are satisfiable
+    (sampleState [⟨"a0", 1⟩, ⟨"a1", 1⟩]).tracker.Nodup ∧ TallyRuns (env4 6 600) ∧
+    verdictOf (env4 6 600) (sampleState []).vstat ⟨"a0", "a3", 5, 1, [⟨"a0", 1⟩, ⟨"a1", 1⟩]⟩ = .guilty ∧
+    verdictOf (env4 6 600) (sampleState []).vstat ⟨"a0", "a3", 5, 1, [⟨"a0", 1⟩, ⟨"a1", 2⟩]⟩ = .none ∧
+    verdictOf (env4 6 600) (sampleState []).vstat ⟨"a0", "a3", 5, 1, [⟨"a1", 2⟩, ⟨"a2", 2⟩]⟩ = .innocent := by
+  refine ⟨by decide, ⟨by decide, by decide, by decide⟩, by decide, by decide, by decide⟩
 
 /-! ## 2. one vote per validator -/
 
@@ -261,43 +293,21 @@ example : -- an active validator opens and votes; an address without an active s
     (txAllege (sampleState []) 6 "x9" "a2" "r2" 5 true true).1 = .nonActive ∧
     (txVote (sampleState []) "r1" "x9" 1 true true).1 = .nonActive := by decide
 
-/-
-  FULL STATEMENT (false of the code; suspect S25 CONFIRMED on the implementation): the verdict is
-  computed from the votes of validators that are active WHEN THE TALLY RUNS:
-      verdictOf F env ar = verdictOf F env { ar with votes := ar.votes.filter (isActive st ·.addr) }.
-  The tally counts every stored vote; a vote stays counted after its voter left the active set.
--/
-theorem votes_are_of_currently_active_partial (F : FloatOps) (env : Env) (st : State) (ar : Request)
-    (hall : ∀ v, v ∈ ar.votes → isActive st v.addr = true) :   -- voter set unchanged since the votes
-    verdictOf F env ar = verdictOf F env { ar with votes := ar.votes.filter fun v => isActive st v.addr } := by
-  rw [filter_active_self st ar.votes hall]
-
-/-- counterexample (the replayed witness): `a0` voted yes and then left the active set (3 active,
-    required 2); one more yes vote convicts `a3` although only one currently active validator
-    voted yes, which is not more than 50 % of 2 -/
-theorem departed_voter_still_counts :
-    let st : State := { sampleState [⟨"a0", 1⟩, ⟨"a1", 1⟩] with
-      vstat := [("a0", ⟨false, 5⟩), ("a1", ⟨true, 2⟩), ("a2", ⟨true, 2⟩), ("a3", ⟨true, 2⟩)] }
-    let env : Env := ⟨6, 600, 3, o50, prev4⟩
-    let ar : Request := ⟨"a0", "a3", 5, 1, [⟨"a0", 1⟩, ⟨"a1", 1⟩]⟩
-    verdictOf exactOps env ar = .guilty ∧
-    verdictOf exactOps env { ar with votes := ar.votes.filter fun v => isActive st v.addr } = .none := by decide
-
 /-! ## 4. guilty ⇒ frozen, until released -/
 
 /-- a guilty verdict freezes the accused, and a frozen validator stays frozen through every
     history that contains no RELEASE of it (allegations, votes, staking operations, BeginBlock
     freeze checks, elections, further tallies, commits) -/
 theorem guilty_frozen_until_release (F : FloatOps) (env : Env) (st : State) (id : ReqId) (ar : Request)
-    (hact : env.active ≠ 0) (hid : id ∈ st.tracker) (har : alookup id (cleanTracker st).reqs = some ar)
-    (hv : verdictOf F env ar = .guilty) (ops : List Op) (hnr : ∀ op, op ∈ ops → NotRelease ar.accused op) :
+    (hrun : TallyRuns env) (hid : id ∈ st.tracker) (har : alookup id (cleanTracker st).reqs = some ar)
+    (hv : verdictOf env st.vstat ar = .guilty) (ops : List Op) (hnr : ∀ op, op ∈ ops → NotRelease ar.accused op) :
     isFrozen (tally F env st) ar.accused = true ∧ isFrozen (run (tally F env st) ops) ar.accused = true := by
   have h1 : isFrozen (tally F env st) ar.accused = true := by
-    have := (tally_follows_verdict F env st id ar hact hid har).1 hv
+    have := (tally_follows_verdict F env st id ar hrun hid har).1 hv
     unfold isFrozen; rw [this]; rfl
   exact ⟨h1, run_frozen_mono _ ops ar.accused hnr h1⟩
 
-example : -- a conviction at height 6; a later vote, BeginBlock and commit do not thaw
+example : -- a conviction at height 6
     isFrozen (tally exactOps (env4 6 600) (sampleState [⟨"a0", 1⟩, ⟨"a1", 1⟩])) "a3" = true := by
   simp only [tally]
   rw [tallyWith_core _ _ _ _ _ (by decide) (by decide)]
@@ -305,76 +315,91 @@ example : -- a conviction at height 6; a later vote, BeginBlock and commit do no
 
 /-! ## 5. frozen ⇒ no stake, unstake, withdraw -/
 
-/-- the three staking handlers refuse a transaction that NAMES a frozen validator, and change
+/-- the three staking handlers refuse a transaction that names a frozen validator, and change
     nothing -/
 theorem frozen_cannot_stake_unstake_withdraw (st : State) (val : Addr) (hf : isFrozen st val = true)
-    (stakeAddr : Addr) (amt : Int) :
+    (vals : List (Addr × ValRec)) (stakeAddr : Addr) (amt : Int) :
     runStake st val stakeAddr amt = (.frozen, st) ∧ runUnstake st val stakeAddr amt = (.frozen, st) ∧
-    runWithdraw st val stakeAddr amt = (.frozen, st) ∧
-    (∀ kind, stakingGuard st kind val = .frozen) := by
+    runWithdraw st vals val stakeAddr amt = (.frozen, st) ∧
+    (∀ kind, stakingGuard st vals kind val stakeAddr = .frozen) := by
   refine ⟨?_, ?_, ?_, ?_⟩
   · unfold runStake; simp [hf]
   · unfold runUnstake; simp [hf]
   · unfold runWithdraw; simp [hf]
   · intro kind; unfold stakingGuard; simp [hf]
 
+/-- … and (df2e1ab, 92417eb) the money side: while validator `v` whose record names the stake
+    account `s` is frozen, NO withdraw from `s` succeeds, whatever validator address the message
+    names (`vals` = the validator records `Validators.Iterate` finds) -/
+theorem frozen_owner_cannot_withdraw (st : State) (vals : List (Addr × ValRec)) (v s : Addr) (r : ValRec)
+    (hm : (v, r) ∈ vals) (hs : r.stakeAddr = s) (hf : isFrozen st v = true) (named : Addr) (amt : Int) :
+    runWithdraw st vals named s amt = (.frozen, st) ∧ stakingGuard st vals "withdraw" named s = .frozen := by
+  have ho := frozenOwner_of_mem st vals v s r hm hs hf
+  constructor
+  · unfold runWithdraw; split
+    · rfl
+    · rfl
+  · unfold stakingGuard; split
+    · rfl
+    · simp; exact ho
+
 /-- the two clauses together: from the guilty verdict on, through every history without a RELEASE of
-    the convicted validator, each of the three staking transactions naming it is refused -/
+    the convicted validator, STAKE and UNSTAKE naming it and every WITHDRAW from its stake account
+    are refused -/
 theorem guilty_cannot_stake_until_release (F : FloatOps) (env : Env) (st : State) (id : ReqId) (ar : Request)
-    (hact : env.active ≠ 0) (hid : id ∈ st.tracker) (har : alookup id (cleanTracker st).reqs = some ar)
-    (hv : verdictOf F env ar = .guilty) (ops : List Op) (hnr : ∀ op, op ∈ ops → NotRelease ar.accused op)
-    (stakeAddr : Addr) (amt : Int) :
+    (hrun : TallyRuns env) (hid : id ∈ st.tracker) (har : alookup id (cleanTracker st).reqs = some ar)
+    (hv : verdictOf env st.vstat ar = .guilty) (ops : List Op) (hnr : ∀ op, op ∈ ops → NotRelease ar.accused op)
+    (vals : List (Addr × ValRec)) (r : ValRec) (hm : (ar.accused, r) ∈ vals) (named stakeAddr : Addr) (amt : Int) :
     let s := run (tally F env st) ops
     runStake s ar.accused stakeAddr amt = (.frozen, s) ∧ runUnstake s ar.accused stakeAddr amt = (.frozen, s) ∧
-    runWithdraw s ar.accused stakeAddr amt = (.frozen, s) := by
-  have hf := (guilty_frozen_until_release F env st id ar hact hid har hv ops hnr).2
-  obtain ⟨h1, h2, h3, _⟩ := frozen_cannot_stake_unstake_withdraw _ ar.accused hf stakeAddr amt
-  exact ⟨h1, h2, h3⟩
+    runWithdraw s vals named r.stakeAddr amt = (.frozen, s) := by
+  have hf := (guilty_frozen_until_release F env st id ar hrun hid har hv ops hnr).2
+  obtain ⟨h1, h2, _, _⟩ := frozen_cannot_stake_unstake_withdraw _ ar.accused hf vals stakeAddr amt
+  exact ⟨h1, h2, (frozen_owner_cannot_withdraw _ vals ar.accused r.stakeAddr r hm rfl hf named amt).1⟩
 
-/-
-  FULL STATEMENT (false of the code): while validator `v` with stake account `s` is frozen, no
-  WITHDRAW lowers the matured stake of `s`:
-      isFrozen st v → (∀ val amt, getI (runWithdraw st val s amt).2.db s = getI st.db s).
-  The guard looks at the `ValidatorAddress` field of the message, the money at `StakeAddress`:
-  naming any address that is not a frozen validator (it must co-sign, so any second key of the
-  owner does) passes the guard.  The theorem above is the `_partial` form ("the transaction names
-  the frozen validator").
--/
-theorem frozen_owner_withdraws_naming_other_address :
+/-- regression (was `frozen_owner_withdraws_naming_other_address`): the stake account `s3` of the
+    frozen `a3` names the non-validator `x9`: refused; once `a3` is released it withdraws -/
+example :
     let st : State := { sampleState [] with susp := [("a3", ⟨2, 6, 600, 0, none⟩)] }
-    isFrozen st "a3" = true ∧ runWithdraw st "a3" "s3" 4 = (.frozen, st) ∧
-    (runWithdraw st "x9" "s3" 4).1 = .ok ∧ getI (runWithdraw st "x9" "s3" 4).2.db "s3" = 0 := by decide
+    let st' : State := { sampleState [] with susp := [("a3", ⟨2, 6, 600, 9, some 90000⟩)] }
+    runWithdraw st prev4 "x9" "s3" 4 = (.frozen, st) ∧ runWithdraw st prev4 "a3" "s3" 4 = (.frozen, st) ∧
+    (runWithdraw st' prev4 "x9" "s3" 4).1 = .ok ∧ getI (runWithdraw st' prev4 "x9" "s3" 4).2.db "s3" = 0 := by decide
 
 /-! ## 6. the penalty -/
 
-/-- a guilty verdict against a validator with stake `s`:
+/-- a guilty verdict against a validator with stake `s`, charged to `sa` — the stake address of its
+    current record (ebb3d1d), else of the previous block's:
     * the penalty `P` is `s·base%` rounded to the nearest integer (half up), `0 ≤ P ≤ s`;
-    * the validator's stake record falls by exactly `P`; so do the two delegation records of its
-      stake account when they cover `P` (they are the same amount in every state the staking
-      handlers produce: C11);
-    * the bounty address gains `⌊P·10¹⁸·bounty%⌋`, which is at most the penalty — and nothing if the
-      debit failed;
-    * the power update of `P` is scheduled for the next block. -/
+    * when the two delegation records of the stake account cover `P` (they equal the stake in
+      every state the staking handlers produce: C11) all three records fall by exactly `P`, the
+      bounty address gains `⌊P·10¹⁸·bounty%⌋ ≤ P·10¹⁸`, and the power update of `P` is scheduled
+      for the next block;
+    * otherwise the debit is refused as a whole (7abde80): no stake record, no bounty and no
+      scheduled update changes.
+    `Exact F`: the `big.Float` expression equals the exact rounding (stake·base% < 2^53). -/
 theorem penalty_exact_and_bounty_le_penalty (F : FloatOps) (hF : Exact F) (env : Env) (st : State)
     (del : List ReqId) (id : ReqId) (ar : Request) (v : ValRec)
-    (har : alookup id st.reqs = some ar) (hv : verdictOf F env ar = .guilty)
+    (har : alookup id st.reqs = some ar) (hv : verdictOf env st.vstat ar = .guilty)
     (hp : alookup ar.accused env.prev = some v)
     (hbd : 0 < env.opts.penBaseDec) (hb0 : 0 ≤ env.opts.penBasePct) (hb1 : env.opts.penBasePct ≤ env.opts.penBaseDec)
     (hcd : 0 < env.opts.bountyDec) (hc0 : 0 ≤ env.opts.bountyPct) (hc1 : env.opts.bountyPct ≤ env.opts.bountyDec)
     (hs : 0 ≤ getI st.total ar.accused) :
     let s := getI st.total ar.accused
+    let sa := slashAddr env ar.accused v
     let P := (2 * s * env.opts.penBasePct + env.opts.penBaseDec) / (2 * env.opts.penBaseDec)
     let st' := (tallyOne F env (st, del) id).1
     (2 * env.opts.penBaseDec * P ≤ 2 * s * env.opts.penBasePct + env.opts.penBaseDec ∧
       2 * s * env.opts.penBasePct + env.opts.penBaseDec < 2 * env.opts.penBaseDec * (P + 1)) ∧
     (0 ≤ P ∧ P ≤ s) ∧
-    getI st'.total ar.accused = s - P ∧
     (0 ≤ st'.bounty - st.bounty ∧ st'.bounty - st.bounty ≤ P * e18) ∧
-    (P ≤ getI st.vd (ar.accused, v.stakeAddr) → P ≤ getI st.de v.stakeAddr →
-        getI st'.vd (ar.accused, v.stakeAddr) = getI st.vd (ar.accused, v.stakeAddr) - P ∧
-        getI st'.de v.stakeAddr = getI st.de v.stakeAddr - P ∧
-        st'.bounty = st.bounty + P * e18 * env.opts.bountyPct / env.opts.bountyDec) ∧
-    alookup (env.height, ar.accused) st'.delayed = some P := by
+    (P ≤ getI st.vd (ar.accused, sa) → P ≤ getI st.de sa →
+        getI st'.total ar.accused = s - P ∧
+        getI st'.vd (ar.accused, sa) = getI st.vd (ar.accused, sa) - P ∧
+        getI st'.de sa = getI st.de sa - P ∧
+        st'.bounty = st.bounty + P * e18 * env.opts.bountyPct / env.opts.bountyDec ∧
+        alookup (env.height, ar.accused) st'.delayed = some P) ∧
+    (¬ (P ≤ getI st.vd (ar.accused, sa) ∧ P ≤ getI st.de sa) →
+        st'.total = st.total ∧ st'.vd = st.vd ∧ st'.de = st.de ∧ st'.bounty = st.bounty ∧ st'.delayed = st.delayed) := by
   simp only
   have hP : F.penalty (getI st.total ar.accused) env.opts =
       (2 * getI st.total ar.accused * env.opts.penBasePct + env.opts.penBaseDec) / (2 * env.opts.penBaseDec) := by
@@ -384,73 +409,74 @@ theorem penalty_exact_and_bounty_le_penalty (F : FloatOps) (hF : Exact F) (env :
   rw [tallyOne_guilty_eq F env st del id ar v har hv hp]
   simp only [hP]
   generalize hPd : (2 * getI st.total ar.accused * env.opts.penBasePct + env.opts.penBaseDec) / (2 * env.opts.penBaseDec) = P at *
-  refine ⟨by rw [← hPd]; exact penalty_round _ _ _ hbd, hbounds, ?_, ?_, ?_, ?_⟩
-  · -- the stake record
-    have ht := minusFromAddress_total { st with susp := upsert st.susp ar.accused (byzRec env) } ar.accused v.stakeAddr P hbounds.2
-    split
-    · simpa using ht
-    · simpa using ht
-  · -- the bounty is at most the penalty
-    have hb := minusFromAddress_bounty { st with susp := upsert st.susp ar.accused (byzRec env) } ar.accused v.stakeAddr P
+  generalize slashAddr env ar.accused v = sa
+  refine ⟨by rw [← hPd]; exact penalty_round _ _ _ hbd, hbounds, ?_, ?_, ?_⟩
+  · have hb := minusFromAddress_bounty { st with susp := upsert st.susp ar.accused (byzRec env) } ar.accused sa P
     split
     · simp only [hb]
       constructor <;> omega
     · simp only [hb]
       have := Int.mul_nonneg hbounds.1 (show (0 : Int) ≤ e18 by decide)
       constructor <;> omega
-  · -- all three records and the exact bounty when the debit goes through
-    intro h2 h3
-    rw [minusFromAddress_ok { st with susp := upsert st.susp ar.accused (byzRec env) } ar.accused v.stakeAddr P hbounds.2 h2 h3]
+  · intro h2 h3
+    rw [minusFromAddress_ok { st with susp := upsert st.susp ar.accused (byzRec env) } ar.accused sa P hbounds.2 h2 h3]
     simp [getI]
-  · split <;> simp
+  · intro hno
+    rw [minusFromAddress_refused { st with susp := upsert st.susp ar.accused (byzRec env) } ar.accused sa P
+      (by intro ⟨_, h2, h3⟩; exact hno ⟨h2, h3⟩)]
+    simp
 
 example : -- stake 15, penalty 30 % = 4.5, rounded half up to 5; bounty 50 % of 5·10¹⁸
     let r := (tallyOne exactOps (env4 6 600) (sampleState [⟨"a0", 1⟩, ⟨"a1", 1⟩], []) "r1").1
     getI r.total "a3" = 10 ∧ getI r.vd ("a3", "s3") = 10 ∧ getI r.de "s3" = 10 ∧
     r.bounty = 2500000000000000000 ∧ alookup (6, "a3") r.delayed = some 5 := by decide
 
+example : -- the stake address changed in the block of the verdict (current record names `t3`, which holds the stake)
+    let env : Env := { env4 6 600 with cur := [("a3", ⟨"t3", 15⟩)] }
+    let st : State := { sampleState [⟨"a0", 1⟩, ⟨"a1", 1⟩] with vd := [(("a3", "t3"), 15)], de := [("t3", 15)] }
+    let r := (tallyOne exactOps env (st, []) "r1").1
+    getI r.total "a3" = 10 ∧ getI r.vd ("a3", "t3") = 10 ∧ getI r.de "t3" = 10 ∧ alookup (6, "a3") r.delayed = some 5 := by decide
+
 /-! ## 7. release only after the release time -/
 
 /-- `HandleRelease` succeeds on a byzantine-fault record only strictly after
-    `FrozenAt + ValidatorReleaseTime` days, and what it writes is a released record -/
+    `FrozenAt + ValidatorReleaseTime` days -/
 theorem release_only_after_time (st st' : State) (days : Int) (a : Addr) (h now t0 : Int) (sig fee : Bool)
     (hb : ByzSince st a t0) (hok : txRelease st days a h now sig fee = (.ok, st')) :
     now > t0 + 86400 * days := by
   obtain ⟨hr, _, _⟩ := withAdmission_ok hok
   exact handleRelease_ok_time st st' days a h now t0 hb hr
 
-/-
-  FULL STATEMENT (false of the code): a validator found guilty at time `t0` is released only after
-  `t0 + days`:  for every history `ops` after the verdict that contains no RELEASE of `a`,
-      txRelease (run st ops) days a h now … = (.ok, _) → now > t0 + 86400·days.
-  `CheckMaliciousValidators` re-records a validator that is short of block votes as
-  MISSED_REQUIRED_VOTES with `CreateSuspiciousValidator`, which OVERWRITES the byzantine-fault
-  record (the guilty validator is still "active" in the block after the verdict); that status has
-  no waiting time.  The hypothesis the code forces: the freeze check never finds `a` short of votes.
--/
-theorem release_only_after_time_partial (st : State) (a : Addr) (t0 : Int) (ops : List Op)
+/-- over histories (full strength since 73dca0f: the BeginBlock freeze check skips addresses that
+    are already frozen, so it cannot replace the byzantine-fault record any more): a validator
+    convicted at time `t0` is released only after `t0 + days`, whatever happens in between —
+    allegations, votes, staking operations, missed block votes, elections, further convictions
+    (block times do not run backwards: `TimeFrom`) -/
+theorem guilty_released_only_after_time (st : State) (a : Addr) (t0 : Int) (ops : List Op)
     (hb : ByzSince st a t0)
-    (hops : ∀ op, op ∈ ops → NotRelease a op ∧ NoMissed a op ∧ TimeFrom t0 op)
+    (hops : ∀ op, op ∈ ops → NotRelease a op ∧ TimeFrom t0 op)
     (st' : State) (days h now : Int) (sig fee : Bool)
     (hok : txRelease (run st ops) days a h now sig fee = (.ok, st')) :
     now > t0 + 86400 * days :=
   release_only_after_time (run st ops) st' days a h now t0 sig fee (run_byzSince st ops a t0 hops hb) hok
 
-/-- counterexample (the replayed witness): `a3` found guilty at time 600 (release time one day)
-    misses votes; the BeginBlock of the next block re-records it, and a RELEASE two seconds after
-    the verdict succeeds -/
-theorem missed_votes_record_lifts_release_time :
+/-- a guilty verdict establishes the premise: the record it writes is a frozen byzantine-fault
+    record of the verdict's block time -/
+theorem guilty_verdict_starts_the_clock (F : FloatOps) (env : Env) (st : State) (id : ReqId) (ar : Request)
+    (hrun : TallyRuns env) (hid : id ∈ st.tracker) (har : alookup id (cleanTracker st).reqs = some ar)
+    (hv : verdictOf env st.vstat ar = .guilty) : ByzSince (tally F env st) ar.accused env.time :=
+  ⟨byzRec env, (tally_follows_verdict F env st id ar hrun hid har).1 hv, rfl, rfl, Int.le_refl _⟩
+
+/-- regression (was `missed_votes_record_lifts_release_time`): `a3` found guilty at time 600 (release
+    time one day) misses votes; the BeginBlock of the next block leaves its record alone and a
+    RELEASE two seconds after the verdict is refused -/
+example :
     let st : State := { sampleState [] with susp := [("a3", ⟨2, 6, 600, 0, none⟩)] }
     let st1 := step st (.beginBlock o50 7 601 [("a3", 1)] prev4)
-    ByzSince st "a3" 600 ∧
-    (txRelease st 1 "a3" 8 602 true true).1 = .tooEarly ∧
-    (txRelease st1 1 "a3" 8 602 true true).1 = .ok ∧
-    isFrozen (txRelease st1 1 "a3" 8 602 true true).2 "a3" = false := by
-  refine ⟨⟨⟨2, 6, 600, 0, none⟩, by decide, rfl, rfl, by decide⟩, by decide, ?_, ?_⟩
-  all_goals
-    simp only [step]
-    rw [beginBlock_of_sorted _ _ _ _ _ _ (by decide)]
-    decide
+    st1 = st ∧ (txRelease st1 1 "a3" 8 602 true true).1 = .tooEarly := by
+  simp only [step]
+  rw [beginBlock_of_sorted _ _ _ _ _ _ (by decide)]
+  decide
 
 example : -- a release after the day has passed succeeds, one second earlier it does not
     let st : State := { sampleState [] with susp := [("a3", ⟨2, 6, 600, 0, none⟩)] }
@@ -470,34 +496,21 @@ example : ["r2", "r1"].Perm ["r1", "r2"] := by decide
 
 /-! ## 9. a frozen validator drops out of the validator set -/
 
-/-
-  FULL STATEMENT (false of the code): a validator that is frozen when a block begins is not
-  elected at that block's end.  `CheckMaliciousValidators` returns before it fetches the frozen
-  records while `height ≤ BlockVotesDiff`, so inside the first window the election knows no
-  malicious validator.
--/
-theorem guilty_dropped_from_set_partial (minSelf top h diff : Int) (pop : List (Addr × Int))
+/-- a validator that is frozen when a block begins is not elected at that block's end, at every
+    height (full strength since 7eb2406: the frozen records are loaded before the early return
+    of the missed-votes check), and once popped its status record says inactive -/
+theorem guilty_dropped_from_set (minSelf top h : Int) (pop : List (Addr × Int))
     (suspAfterBegin : List (Addr × Susp)) (vstat : List (Addr × VStat)) (a : Addr) (s : Susp)
-    (hwin : diff < h)                                   -- forced: past the first missed-votes window
     (hl : alookup a suspAfterBegin = some s) (hf : isFrozenRec s = true) :
-    let r := elect minSelf top h (malOf h diff suspAfterBegin) pop vstat
-    a ∉ r.elected ∧ (a ∈ pop.map (·.1) → ∃ vs, alookup a r.vstat = some vs ∧ vs.active = false) := by
-  have hm : (malOf h diff suspAfterBegin).contains a = true := by
-    unfold malOf
-    have : ¬ h ≤ diff := by omega
-    simp only [this, if_false]
-    exact mem_frozenSet hl hf
-  exact elect_mal minSelf top h (malOf h diff suspAfterBegin) pop vstat a hm
+    let r := elect minSelf top h (malOf suspAfterBegin) pop vstat
+    a ∉ r.elected ∧ (a ∈ pop.map (·.1) → ∃ vs, alookup a r.vstat = some vs ∧ vs.active = false) :=
+  elect_mal minSelf top h (malOf suspAfterBegin) pop vstat a (mem_frozenSet hl hf)
 
-/-- counterexample (the replayed witness): window 5, `a3` frozen at height 3, elected again at 4 -/
-theorem frozen_elected_inside_first_window :
+/-- regression (was `frozen_elected_inside_first_window`): `a3` frozen at height 3 is skipped at
+    height 4 although the missed-votes window is 5 blocks -/
+example :
     let susp : List (Addr × Susp) := [("a3", ⟨2, 3, 300, 0, none⟩)]
-    let r := elect 5 4 4 (malOf 4 5 susp) [("a3", 15), ("a0", 10), ("a1", 10), ("a2", 10)] (sampleState []).vstat
-    "a3" ∈ r.elected ∧ r.cnt = 4 := by decide
-
-example : -- past the window the same validator is skipped and its status record says inactive
-    let susp : List (Addr × Susp) := [("a3", ⟨2, 3, 300, 0, none⟩)]
-    let r := elect 5 4 6 (malOf 6 5 susp) [("a3", 15), ("a0", 10), ("a1", 10), ("a2", 10)] (sampleState []).vstat
-    r.elected = ["a0", "a1", "a2"] ∧ r.cnt = 3 ∧ alookup "a3" r.vstat = some ⟨false, 6⟩ := by decide
+    let r := elect 5 4 4 (malOf susp) [("a3", 15), ("a0", 10), ("a1", 10), ("a2", 10)] (sampleState []).vstat
+    r.elected = ["a0", "a1", "a2"] ∧ r.cnt = 3 ∧ alookup "a3" r.vstat = some ⟨false, 4⟩ := by decide
 
 end OLP.Props.C19
